@@ -275,7 +275,7 @@ def _fill_block(branch, block):
     return False
 
 
-def reference_run(names, js, flow, bufsize, stopped_fc="at-stop", empty="branch-order"):
+def reference_run(names, js, flow, bufsize, stopped_fc="at-stop", empty="branch-order", branches=None):
     """Output of the documented schedule, driving fresh real branch objects.
 
     Two points the statement leaves open are parameters (the check accepts every reading):
@@ -284,10 +284,14 @@ def reference_run(names, js, flow, bufsize, stopped_fc="at-stop", empty="branch-
     *empty*: on an empty flow the single invocations come in "branch-order", or "computes-last"
       (an empty flow treated as one empty block followed by the final computes).
 
+    *branches*: drive these (already used) branch objects instead of fresh ones - a second run of
+    the same Split is one more run of the same schedule over the same branch objects.
+
     Returns (output list, info dict).
     """
     kinds = [kind_of(nm) for nm in names]
-    branches = build_driveable(names, js)
+    if branches is None:
+        branches = build_driveable(names, js)
     out = []
     info = {"stops": 0, "blocks": 0, "final_from": None}
     blocks = blocks_of(flow, bufsize)
@@ -359,3 +363,28 @@ def expected_outputs(names, js, flow, bufsize):
         if alt not in outs:
             outs.append(alt)
     return outs, info
+
+
+def expected_two_runs(names, js, make_flow, bufsize, exc_repr):
+    """All (first output, second output) pairs the statement allows for two consecutive runs of one
+    Split over two flows: the documented schedule is driven twice over the *same* branch objects
+    (every branch is active again in the second run; what a used branch then does is its own
+    business and is simply observed). One reading of the two open points is used for both runs."""
+    pairs = []
+    for stopped_fc in ("at-stop", "at-end"):
+        for empty in ("branch-order", "computes-last"):
+            branches = build_driveable(names, js)
+            pair = []
+            for _ in range(2):
+                try:
+                    out, _info = reference_run(names, js, make_flow(), bufsize, stopped_fc, empty,
+                                               branches=branches)
+                except Exception as e:  # noqa: an exception of a used branch is an allowed outcome
+                    out = exc_repr(e)
+                pair.append(out)
+                if not isinstance(out, list):
+                    break
+            pair = tuple(pair)
+            if pair not in pairs:
+                pairs.append(pair)
+    return pairs
